@@ -141,6 +141,10 @@ const ATTR_WIDTH: &str = "width";
 const ATTR_X: &str = "x";
 const ATTR_Y: &str = "y";
 
+/// The deepest accepted nesting of elements. The parser and the builders of evaluators
+/// descend recursively, models are nested a dozen levels deep.
+const MAX_NESTING_DEPTH: usize = 128;
+
 #[derive(Default)]
 pub struct ModelParser {}
 
@@ -149,6 +153,12 @@ impl ModelParser {
   pub fn parse(&mut self, xml: &str) -> Result<Definitions> {
     match roxmltree::Document::parse(xml) {
       Ok(document) => {
+        // the ancestors of a node begin with the node itself and end with the root of the document
+        let too_deep = |node: &Node| node.is_element() && node.ancestors().nth(MAX_NESTING_DEPTH + 1).is_some();
+        if document.descendants().any(|node| too_deep(&node)) {
+          let reason = format!("elements are nested more than {} levels deep", MAX_NESTING_DEPTH);
+          return Err(xml_parsing_model_failed(&reason));
+        }
         let definitions_node = document.root_element();
         if definitions_node.tag_name().name() != NODE_DEFINITIONS {
           return Err(xml_unexpected_node(NODE_DEFINITIONS, definitions_node.tag_name().name()));
